@@ -61,6 +61,12 @@ CLAIMED = {
         text="Oracle: nano_virt --emit-nvm (ASan+UBSan build) exits 0 or 1, exit 1 carries a diagnostic, no signal, no sanitizer report, bounded time (suspected hangs re-run 3x with 10x budget), nesting beyond the documented limit of 1000 is rejected for every construct that nests by recursion. Inputs: fuzzer-generated byte strings (crash/timeout artifacts re-validated through the oracle), 1-4 token-level edits of generated valid programs (delete/duplicate/swap/replace/truncate/splice/unbalance/keyword injection/raw bytes), and ramps of 15 recursive constructs to depth 30 000 (100 000 in thorough). A stack overflow seen only under instrumentation is re-checked on the build as shipped.",
         note="Leaks are outside the property. libFuzzer campaigns are only approximately reproducible from VERIF_SEED; saved artifacts are the reproducible unit. Import processing is exercised with unresolvable paths only (no module files are generated).",
         design="3/C09"),
+    "C13": dict(
+        category="exploration",
+        technique="coverage-guided fuzzing (libFuzzer + ASan/UBSan) of an in-process loader->verifier->VM target with checksum fix-up and a structure-aware module builder; oracle inside the target (return / error code / verifier-VM agreement) under an instruction budget",
+        text="Inputs: raw .nvm images mutated from compiler-produced seeds with the CRC recomputed, and modules assembled from FuzzedDataProvider bytes through the public nvm_* API (weighted 90-opcode alphabet, boundary operands incl. 2^31/2^32/INT64 extremes, arbitrary function-table fields) then patched at arbitrary u32 offsets and re-checksummed. Every accepted import-free module is executed with 20 000 instructions of fuel (hook H1). Violations: any sanitizer report or signal in loader, verifier or VM, or a decode/invalid-opcode error at an instruction boundary the verifier walked. Evidence counts how many inputs were loaded / verified / executed.",
+        note="Only crash- artifacts count; oom-/slow-/timeout- artifacts are load noise (memory exhaustion by huge allocations is not in the statement). Campaigns are approximately reproducible from VERIF_SEED; artifacts are the reproducible unit. The daemon path (no verifier call) belongs to C18.",
+        design="3/C13"),
 }
 
 NOT_YET = {
